@@ -844,6 +844,10 @@ class Interp:
             return Or(*[And(c, self.to_formula(x)) for c, x in v0.alts])
         if isinstance(v0, (Param, Sel)):
             return atom("true", v0.r())
+        if isinstance(v0, Def) and ("Const" in (v0.dk or "") or "Static" in (v0.dk or "")):
+            c_ = self.concrete(v0)          # a boolean constant item (also an associated const selected by substitution)
+            if c_ is True or c_ is False:
+                return c_
         return atom("opaque", v0.r())
 
     def cond(self, node, fr):
